@@ -321,7 +321,7 @@ def run_property(modname, tier, seed=0):
             if set(sts) & {"hang", "abort", "fuel", "missing", "pre_error"}:
                 # the first observation was a resource verdict (watchdog, engine death, allocation failure) and ten isolated
                 # replays all completed normally: a transient of the loaded machine, not a behaviour of the subject
-                print("TRANSIENT (not counted): property=%s %s: first observation had statuses %s, 0/10 isolated replays reproduce it" % (prop, sig, sts))
+                print("TRANSIENT (not counted): property=%s %s: first observation had statuses %s, %d/10 isolated replays reproduce it" % (prop, sig, sts, seen))
                 extra["transient_resource_events"] += 1
                 continue
             print("MACHINERY ERROR in %s: violation %r did not reproduce (%d/10); statuses of the first observation: %s" % (prop, sig, seen, sts))
